@@ -122,6 +122,25 @@ def instantiate(rng, cfg):
         inst["fdkind"], inst["fd_blocks"], inst["masks"] = "dict", [b], {b: msk}
     elif cls in ("not_orthonormal", "not_biorthonormal", "pairs_in_hermitian_mode", "exclusive_indices_and_vectors"):
         use_vectors = cls
+        if cls in ("not_orthonormal", "not_biorthonormal"):
+            # "scaled": one subspace has vectors of norm 2.  "overlap": every subspace is orthonormal by
+            # itself, but one vector of block tb leans into block tc (3/5 e_a + 4/5 e_c), and the
+            # Hamiltonian is the one that is block diagonal IN THAT NON-ORTHOGONAL FRAME
+            # (H' = V^-dagger H V^-1), so that only the (bi)orthonormality check can reject it.
+            rec["where"] = rng.choice(["scaled", "overlap"])
+            if rec["where"] == "overlap":
+                tb = which_block(cfg["pos"])
+                tc = (tb + 1) % 3
+                a, c = states_of(inst, tb)[0], states_of(inst, tc)[0]
+                I = hermitian.ident(d)
+                V = [list(r) for r in I]
+                V[a][a] = (Fraction(3, 5), F0)
+                V[c][a] = (Fraction(4, 5), F0)
+                Vi = [list(r) for r in I]           # V^-1 = 1 - (v - e_a) e_a^T / v_a
+                Vi[a][a] = (Fraction(5, 3), F0)
+                Vi[c][a] = (Fraction(-4, 3), F0)
+                inst["basis"] = dict(kind="overlap", M=hermitian.madj(Vi), Mi=Vi)
+                inst["_frame"] = V
     elif cls == "nonhermitian_symbolic_term":
         m = {"first": 1, "middle": 2, "last": 3}[cfg["pos"]]
         t = hermitian.rand_herm(rng, d, complex_=True, dens=(1, 2), amp=2, fill=1.0)
@@ -141,7 +160,7 @@ def instantiate(rng, cfg):
         if use_vectors:
             conv = hermitian.to_sympy if inst["vtype"] == "sympy" else (
                 lambda m_: hermitian.to_numpy(m_, force_complex=inst.get("complex", False)))
-            I = hermitian.ident(d)
+            I = inst.get("_frame") or hermitian.ident(d)
             vecs = []
             for b in range(3):
                 cols = states_of(inst, b)
@@ -149,11 +168,13 @@ def instantiate(rng, cfg):
                 vecs.append(Rb)
             tb = which_block(cfg["pos"])
             if use_vectors == "not_orthonormal":
-                vecs[tb] = [[(x[0] * 2, x[1]) for x in row] for row in vecs[tb]]
+                if rec.get("where") != "overlap":
+                    vecs[tb] = [[(x[0] * 2, x[1]) for x in row] for row in vecs[tb]]
                 des = dict(subspace_eigenvectors=tuple(conv(v) for v in vecs))
             elif use_vectors == "not_biorthonormal":
                 L = copy.deepcopy(vecs)
-                L[tb] = [[(x[0] * 2, x[1]) for x in row] for row in L[tb]]
+                if rec.get("where") != "overlap":
+                    L[tb] = [[(x[0] * 2, x[1]) for x in row] for row in L[tb]]
                 des = dict(subspace_eigenvectors=tuple((conv(r), conv(l)) for r, l in zip(vecs, L)))
             elif use_vectors == "pairs_in_hermitian_mode":
                 des = dict(subspace_eigenvectors=tuple(
